@@ -83,7 +83,8 @@ def run (line : String) : String :=
 partial def loop (h : IO.FS.Stream) (out : IO.FS.Stream) : IO Unit := do
   let line ← h.getLine
   if line.isEmpty then return ()
-  out.putStrLn (run line)
+  if line == "flush\n" then out.flush   -- marker line of the fuzz workers: answer what has been asked so far
+  else out.putStrLn (run line)
   loop h out
 
 def main : IO Unit := do
